@@ -99,6 +99,32 @@ def unit_wrappers(S):
                 function="lerax.distribution.base_distribution:AbstractTransformedDistribution.mode", what="mode() = forward(base mode) = forward(loc), within [low, high]")
 
 
+def native_multicat_replay(dims, form):
+    """R1: the real MultiCategorical built from a flat vector vs numpy log-softmax per component (cumulative split), on random parameters."""
+    def replay(model):
+        offs = [sum(dims[:i]) for i in range(len(dims))]
+        rng = np.random.RandomState(4)
+        for t in range(4):
+            raw = rng.randn(sum(dims)).astype(np.float32)
+            pieces = [raw[o:o + d] for o, d in zip(offs, dims)]
+            logp = [p - np.log(np.sum(np.exp(p))) for p in pieces]
+            flat = raw if form == "logits" else np.concatenate([np.exp(l) for l in logp]).astype(np.float32)
+            val = np.array([rng.randint(0, d) for d in dims])
+            obs = {}
+            try:
+                d = LD.MultiCategorical(**{form: jnp.asarray(flat)}, action_dims=dims)
+                obs = dict(log_prob=float(d.log_prob(jnp.asarray(val))), entropy=float(d.entropy()), mode=np.asarray(d.mode()).tolist())
+            except Exception as e:
+                obs = dict(raised=f"{type(e).__name__}: {e}"[:200])
+            exp = dict(log_prob=float(sum(l[v] for l, v in zip(logp, val))), entropy=float(-sum(np.sum(np.exp(l) * l) for l in logp)), mode=[int(np.argmax(l)) for l in logp])
+            bad = "raised" in obs or abs(obs["log_prob"] - exp["log_prob"]) > 1e-4 or abs(obs["entropy"] - exp["entropy"]) > 1e-4 or list(obs["mode"]) != exp["mode"]
+            if bad:
+                return dict(reproduced=True, route="R1 (real MultiCategorical from a flat vector vs per-component numpy log-softmax)",
+                            inputs={form: flat.tolist(), "action_dims": list(dims), "value": val.tolist()}, observed=dict(real=obs, expected=exp))
+        return dict(reproduced=False, note="4 random parameter vectors: log_prob, entropy, mode agree with the per-component computation")
+    return replay
+
+
 def unit_multicategorical(S):
     fn = "lerax.distribution.multi_categorical:MultiCategorical"
     S.under_contract(fn + ".__init__", fn + "._split_or_unpack_params", fn + ".log_prob", fn + ".prob", fn + ".entropy", fn + ".sample", fn + ".mode", fn + ".sample_and_log_prob")
@@ -118,17 +144,17 @@ def unit_multicategorical(S):
                 lp_flat = run(ctx, lambda p, vv: mk_flat(p).log_prob(vv), flat, v)
                 lp_seq = run(ctx, lambda p, vv: mk_seq(p).log_prob(vv), flat, v)
                 lp_spec = run(ctx, lambda p, vv: sum(comp(p, i).log_prob(vv[i]) for i in range(len(dims))), flat, v)
-                S.prove(f"{tag}/log_prob-is-sum-over-components", ctx, sand(ir.seq(lp_flat.scalar(), lp_spec.scalar()), ir.seq(lp_seq.scalar(), lp_spec.scalar())), function=fn + ".log_prob",
+                S.prove(f"{tag}/log_prob-is-sum-over-components", ctx, sand(ir.seq(lp_flat.scalar(), lp_spec.scalar()), ir.seq(lp_seq.scalar(), lp_spec.scalar())), replay=native_multicat_replay(dims, form), function=fn + ".log_prob",
                         what="log_prob(v) = sum_i log_prob_i(v_i) with component i built from params[c_i : c_i + d_i] (cumulative split), identically for flat and sequence parameters")
                 pr = run(ctx, lambda p, vv: mk_flat(p).prob(vv), flat, v)
                 ex = ctx.uf("exp", [z3.RealSort()], z3.RealSort())
                 S.prove(f"{tag}/prob-is-exp-log_prob", ctx, ir.seq(pr.scalar(), ex(ir.zreal(lp_flat.scalar()))), function=fn + ".prob", what="prob = exp(log_prob)")
                 en = run(ctx, lambda p: mk_flat(p).entropy(), flat)
                 en_s = run(ctx, lambda p: sum(comp(p, i).entropy() for i in range(len(dims))), flat)
-                S.prove(f"{tag}/entropy-is-sum", ctx, ir.seq(en.scalar(), en_s.scalar()), function=fn + ".entropy", what="entropy = sum of the component entropies")
+                S.prove(f"{tag}/entropy-is-sum", ctx, ir.seq(en.scalar(), en_s.scalar()), replay=native_multicat_replay(dims, form), function=fn + ".entropy", what="entropy = sum of the component entropies")
                 mo = run(ctx, lambda p: mk_flat(p).mode(), flat)
                 mo_s = run(ctx, lambda p: jnp.stack([comp(p, i).mode() for i in range(len(dims))]), flat)
-                S.prove(f"{tag}/mode-stacks-components", ctx, kit.tree_eq(mo, mo_s), function=fn + ".mode", what="mode = the component modes, stacked")
+                S.prove(f"{tag}/mode-stacks-components", ctx, kit.tree_eq(mo, mo_s), replay=native_multicat_replay(dims, form), function=fn + ".mode", what="mode = the component modes, stacked")
                 n0 = len(ctx.calls)
                 sm, slp = run(ctx, lambda p, kk: mk_flat(p).sample_and_log_prob(kk), flat, k)
                 sc = [c for c in ctx.calls[n0:] if c.name.endswith(".sample_and_log_prob")]
